@@ -35,13 +35,19 @@ for i, l in zip([0, 1], run('0:zc_dump %x\n' % i for i in (0, 1))):
     r = parse(l)
     assert r[0] == [0], (i, l)
     zc[i] = curve(r, 'sw')
-for i, l in zip([0, 1, 2, 3], run('0:po_dump %x\n' % i for i in (0, 1, 2, 3))):
+PO_IDS = [0, 1, 2, 3, 4, 5, 6, 7]     # 4..7: target field Fp6 = 2 over 3 (cp6_782, bw6_767, bw6_761, mnt6_298)
+for i, l in zip(PO_IDS, run('0:po_dump %x\n' % i for i in PO_IDS)):
     r = parse(l)
     assert r[0] == [0], (i, l)
     p, N, d = r[1]
-    uu, vv, vvv, ww = r[3], r[4], r[5], r[6]
+    uu, vv, vvv, ww, uuu = r[3], r[4], r[5], r[6], r[7]
+    if d == 6:
+        # coordinates (c0.c0, c0.c1, c0.c2, c1.c0, c1.c1, c1.c2): unit(1) = u, unit(3) = v;  u^3 = nr3 in Fp, v^2 = u
+        assert uu == [0, 0, 1, 0, 0, 0] and uuu[1:] == [0] * 5 and ww == [0, 1, 0, 0, 0, 0], (uu, uuu, ww)
+        po[i] = {'p': p, 'N': N, 'tower': 32, 'deg': 6, 'r': r[2][0], 'nr3': uuu[0], 'nr2': 0, 'nr6': [0, 0]}
+        continue
     assert uu[1:] == [0] * (d - 1)
-    e = {'p': p, 'N': N, 'tower': d, 'r': r[2][0], 'nr2': uu[0]}
+    e = {'p': p, 'N': N, 'tower': d, 'deg': d, 'r': r[2][0], 'nr2': uu[0], 'nr3': 0}
     if d == 12:
         assert vvv[2:] == [0] * 10 and ww == [0, 0, 1] + [0] * 9, (vvv, ww)   # v^3 = c0 + c1 u, w^2 = v
         e['nr6'] = vvv[:2]
@@ -52,21 +58,40 @@ for i, l in zip([0, 1, 2, 3], run('0:po_dump %x\n' % i for i in (0, 1, 2, 3))):
 json.dump({'curves': curves, 'zc': zc, 'po': po}, open('/verif/props/C10/configs.json', 'w'), indent=1, sort_keys=True)
 print(len(curves), 'curves', len(zc), 'zc', len(po), 'po')
 
-# one element of order r of each target group (an *input* for the po_de valid-encoding classes)
+# INPUTS for the po_de element classes (gt.json holds inputs only; what they decode to / whether they are accepted is
+# decided by the Rust code and the Coq model): per engine
+#   'g'     : one element of order r of the target group;
+#   'small' : for every prime d <= 50 dividing q^k - 1, one element of order d, x = u^((q^k - 1)/d) for a random u of the
+#             full field (retry until x != 1).  The multiplicative group is cyclic, so EVERY element of order d is a power
+#             x^j (prop.py draws j at random), and x lies in the subfield F_{q^m}, m = ord_d(q) (class tag `sub<m>`).
 import sys, random, time
 sys.path.insert(0, '/verif/props/C10')
 from tower import target_field, fpow
 rng = random.Random(10)
+PRIMES = [d for d in range(2, 51) if all(d % t for t in range(2, d))]
 gt = {}
 for i, e in po.items():
-    F = target_field(e['p'], e['tower'], e['nr2'], e['nr6'])
+    F = target_field(e['p'], e['tower'], e['nr2'], e['nr6'], e['nr3'])
+    k = e['deg']
+    n = e['p'] ** k - 1
     t0 = time.time()
+    assert n % e['r'] == 0
     while True:
         f = F.rand(rng)
-        g = fpow(F, f, (e['p'] ** e['tower'] - 1) // e['r'])
+        g = fpow(F, f, n // e['r'])
         if g != F.one():
             break
     assert fpow(F, g, e['r']) == F.one()
-    gt[i] = F.co(g)
-    print('gt', i, round(time.time() - t0, 1), 's')
+    small = {}
+    for d in PRIMES:
+        if n % d:
+            continue
+        while True:
+            x = fpow(F, F.rand(rng), n // d)
+            if x != F.one():
+                break
+        assert fpow(F, x, d) == F.one()
+        small[d] = F.co(x)
+    gt[i] = {'g': F.co(g), 'small': small}
+    print('gt', i, sorted(small), round(time.time() - t0, 1), 's')
 json.dump(gt, open('/verif/props/C10/gt.json', 'w'), indent=1, sort_keys=True)
